@@ -1,4 +1,5 @@
 import Revm.Proofs.EofValidate
+import Revm.Proofs.EofJumps
 /-! The access tracker of `validate_eof_codes`: every code section of an accepted container has been
 through `validate_eof_code`. Core Lean only. -/
 namespace Revm.Proofs.EofValidate
@@ -150,10 +151,12 @@ theorem validateEofCode_ext {code : Array Nat} {dataSize idx nContainers : Nat}
   subst h
   exact loop_ext _ _ _ _ hs
 
-/-- section `k` of container `e` satisfies `SectionOk` -/
+/-- section `k` of container `e` satisfies `SectionOk` and all its relative jumps land on
+instruction starts -/
 def SecOk (e : Eof) (k : Nat) : Prop :=
   ∀ code, e.body.codeSection[k]? = some code →
-    SectionOk code.toArray e.body.typesSection.length e.body.containerSection.length
+    SectionOk code.toArray e.body.typesSection.length e.body.containerSection.length ∧
+    JumpsOnStarts code.toArray
 
 theorem codesLoop_ok (e : Eof) : ∀ (fuel : Nat) (tr tr' : Tracker),
     codesLoop e e.body.typesSection.toArray fuel tr = .ok tr' →
@@ -185,6 +188,7 @@ theorem codesLoop_ok (e : Eof) : ∀ (fuel : Nat) (tr tr' : Tracker),
       rw [bind_eq_ok] at h
       obtain ⟨tr1, h1, h2⟩ := h
       have hsec := validateEofCode_ok h1
+      have hjmp := validateEofCode_jumps h1
       have hext := validateEofCode_ext h1
       rw [List.size_toArray] at hsec
       have inv1 : ∀ k, tr1.codes[k]? = some true → k ∈ tr1.stack ∨ SecOk e k := by
@@ -196,7 +200,7 @@ theorem codesLoop_ok (e : Eof) : ∀ (fuel : Nat) (tr tr' : Tracker),
             · right
               intro code' hc'
               rw [hcode] at hc'; cases hc'
-              exact hsec
+              exact ⟨hsec, hjmp⟩
             · exact Or.inl (hext.stack k h')
           · exact Or.inr h'
         · exact Or.inl h
@@ -273,7 +277,16 @@ theorem validateEofCodes_container {e : Eof} {t : Option CodeType} {l : List Cod
     by_cases hlt : k < e.body.codeSection.length
     · exact hlt
     · rw [List.getElem?_eq_none (by omega)] at hk; cases hk
-  exact h1 k hk' code hk
+  exact (h1 k hk' code hk).1
+
+theorem validateEofCodes_jumps {e : Eof} {t : Option CodeType} {l : List CodeType}
+    (h : validateEofCodes e t = .ok l) : ContainerJumpsOk e := by
+  obtain ⟨h1, _, _, _⟩ := validateEofCodes_ok h
+  intro code hc
+  obtain ⟨k, hk, hget⟩ := List.getElem_of_mem hc
+  have hget' : e.body.codeSection[k]? = some code := by
+    rw [List.getElem?_eq_getElem hk, hget]
+  exact (h1 k hk code hget').2
 
 theorem decodeChildren_ok : ∀ (cs : List (List Nat)) (ts : List CodeType)
     (r : List (Eof × Option CodeType)), decodeChildren cs ts = .ok r → cs.length ≤ ts.length →
@@ -295,7 +308,7 @@ theorem decodeChildren_ok : ∀ (cs : List (List Nat)) (ts : List CodeType)
 
 /-- the container work-list of `validate_eof_inner`: everything on the stack is `DeepOk` -/
 theorem innerLoop_ok : ∀ (fuel : Nat) (stack : List (Eof × Option CodeType)),
-    innerLoop fuel stack = .ok () → ∀ p, p ∈ stack → DeepOk p.1 := by
+    innerLoop fuel stack = .ok () → ∀ p, p ∈ stack → DeepOk p.1 ∧ DeepJumpsOk p.1 := by
   intro fuel
   induction fuel with
   | zero =>
@@ -318,31 +331,38 @@ theorem innerLoop_ok : ∀ (fuel : Nat) (stack : List (Eof × Option CodeType)),
       have hall := ih _ h3
       rcases List.mem_cons.1 hp with rfl | hp
       · obtain ⟨_, _, _, hl⟩ := validateEofCodes_ok h1'
-        refine DeepOk.mk e (validateEofCodes_container h1') (fun c hc => ?_) (fun c e1 hc he1 => ?_)
-        · obtain ⟨e', he', _⟩ := decodeChildren_ok _ _ _ h2 (by omega) c hc
-          exact ⟨e', he'⟩
-        · obtain ⟨e', he', t, ht⟩ := decodeChildren_ok _ _ _ h2 (by omega) c hc
+        have hchild : ∀ c e1, c ∈ e.body.containerSection → Eof.decode c = .ok e1 →
+            DeepOk e1 ∧ DeepJumpsOk e1 := by
+          intro c e1 hc he1
+          obtain ⟨e', he', t, ht⟩ := decodeChildren_ok _ _ _ h2 (by omega) c hc
           rw [he1] at he'; cases he'
           exact hall (e1, t) (List.mem_append_left _ (List.mem_reverse.2 ht))
+        refine ⟨DeepOk.mk e (validateEofCodes_container h1') (fun c hc => ?_)
+          (fun c e1 hc he1 => (hchild c e1 hc he1).1),
+          DeepJumpsOk.mk e (validateEofCodes_jumps h1') (fun c e1 hc he1 => (hchild c e1 hc he1).2)⟩
+        obtain ⟨e', he', _⟩ := decodeChildren_ok _ _ _ h2 (by omega) c hc
+        exact ⟨e', he'⟩
       · exact hall p (List.mem_append_right _ hp)
 
 theorem validateEofInner_ok {e : Eof} {t : Option CodeType} (h : validateEofInner e t = .ok ()) :
-    DeepOk e := by
+    DeepOk e ∧ DeepJumpsOk e := by
   unfold validateEofInner at h
   have hx := ite_err_eq_ok h; clear h; obtain ⟨_, h⟩ := hx
   by_cases hc : e.body.containerSection.isEmpty = true
   · rw [if_pos hc, bind_eq_ok] at h
     obtain ⟨l, hl, _⟩ := h
     rw [List.isEmpty_iff] at hc
-    refine DeepOk.mk e (validateEofCodes_container (mapErr_eq_ok hl)) (fun c hc' => ?_)
-      (fun c _ hc' _ => ?_)
+    refine ⟨DeepOk.mk e (validateEofCodes_container (mapErr_eq_ok hl)) (fun c hc' => ?_)
+      (fun c _ hc' _ => ?_), DeepJumpsOk.mk e (validateEofCodes_jumps (mapErr_eq_ok hl))
+      (fun c _ hc' _ => ?_)⟩
+    · rw [hc] at hc'; simp at hc'
     · rw [hc] at hc'; simp at hc'
     · rw [hc] at hc'; simp at hc'
   · rw [if_neg hc] at h
     exact innerLoop_ok _ _ h (e, t) (List.mem_cons_self ..)
 
-theorem validateRaw_deep {bs : List Nat} {t : Option CodeType} {e : Eof}
-    (h : validateRawEofInner bs t = .ok e) : DeepOk e := by
+theorem validateRaw_deep' {bs : List Nat} {t : Option CodeType} {e : Eof}
+    (h : validateRawEofInner bs t = .ok e) : DeepOk e ∧ DeepJumpsOk e := by
   unfold validateRawEofInner at h
   have hx := ite_err_eq_ok h; clear h; obtain ⟨_, h⟩ := hx
   rw [bind_eq_ok] at h
@@ -353,5 +373,43 @@ theorem validateRaw_deep {bs : List Nat} {t : Option CodeType} {e : Eof}
   subst h
   cases u
   exact validateEofInner_ok h2
+
+theorem validateRaw_deep {bs : List Nat} {t : Option CodeType} {e : Eof}
+    (h : validateRawEofInner bs t = .ok e) : DeepOk e := (validateRaw_deep' h).1
+
+theorem validateRaw_deepJumps {bs : List Nat} {t : Option CodeType} {e : Eof}
+    (h : validateRawEofInner bs t = .ok e) : DeepJumpsOk e := (validateRaw_deep' h).2
+
+theorem deepOk_sub {e e' : Eof} (hs : SubOf e e') : DeepOk e → DeepOk e' := by
+  induction hs with
+  | refl => exact id
+  | sub hc hd _ ih =>
+    intro h
+    cases h with
+    | mk _ _ _ h3 => exact ih (h3 _ _ hc hd)
+
+theorem deepJumpsOk_sub {e e' : Eof} (hs : SubOf e e') : DeepJumpsOk e → DeepJumpsOk e' := by
+  induction hs with
+  | refl => exact id
+  | sub hc hd _ ih =>
+    intro h
+    cases h with
+    | mk _ _ h3 => exact ih (h3 _ _ hc hd)
+
+theorem deepOk_container {e : Eof} (h : DeepOk e) : ContainerOk e := by
+  cases h with
+  | mk _ h1 _ _ => exact h1
+
+theorem deepJumpsOk_container {e : Eof} (h : DeepJumpsOk e) : ContainerJumpsOk e := by
+  cases h with
+  | mk _ h1 _ => exact h1
+
+/-- every (transitive) sub-container of an accepted container is `ContainerOk` and has all its
+relative jumps on instruction starts -/
+theorem validateRaw_sub {bs : List Nat} {t : Option CodeType} {e e' : Eof}
+    (h : validateRawEofInner bs t = .ok e) (hs : SubOf e e') :
+    ContainerOk e' ∧ ContainerJumpsOk e' :=
+  ⟨deepOk_container (deepOk_sub hs (validateRaw_deep h)),
+   deepJumpsOk_container (deepJumpsOk_sub hs (validateRaw_deepJumps h))⟩
 
 end Revm.Proofs.EofValidate
